@@ -3,6 +3,8 @@ use crate::tok::Tok;
 use prometheus::{proto, HistogramOpts, Opts};
 use std::collections::HashMap;
 
+/// The same option values are assembled through different builder-method orders (chosen by a function of the values, so
+/// that runs are reproducible): the result must not depend on the order in which the builder methods are called.
 pub fn opts(t: &mut Tok) -> Opts {
     let ns = t.string();
     let sub = t.string();
@@ -10,23 +12,86 @@ pub fn opts(t: &mut Tok) -> Opts {
     let help = t.string();
     let consts = t.pairs();
     let vars = t.strings();
-    let mut o = Opts::new(name, help).namespace(ns).subsystem(sub);
-    for (k, v) in consts {
-        o = o.const_label(k, v);
+    match (name.len() + help.len() + consts.len()) % 3 {
+        0 => {
+            let mut o = Opts::new(name, help).namespace(ns).subsystem(sub);
+            for (k, v) in consts {
+                o = o.const_label(k, v);
+            }
+            if !vars.is_empty() {
+                o = o.variable_labels(vars);
+            }
+            o
+        }
+        1 => {
+            let mut m = HashMap::new();
+            for (k, v) in consts {
+                m.insert(k, v);
+            }
+            let mut o = Opts::new(name, help).const_labels(m).subsystem(sub).namespace(ns);
+            for v in vars {
+                o = o.variable_label(v);
+            }
+            o
+        }
+        _ => {
+            let mut o = Opts::new(name, help);
+            for (k, v) in consts {
+                o = o.const_label(k, v);
+            }
+            o = o.namespace(ns);
+            if !vars.is_empty() {
+                o = o.variable_labels(vars);
+            }
+            o.subsystem(sub)
+        }
     }
-    if !vars.is_empty() {
-        o = o.variable_labels(vars);
-    }
-    o
 }
 
 pub fn hopts(t: &mut Tok) -> HistogramOpts {
-    let o = opts(t);
+    let ns = t.string();
+    let sub = t.string();
+    let name = t.string();
+    let help = t.string();
+    let consts = t.pairs();
+    let vars = t.strings();
     let buckets = t.list(|t| t.f64());
-    let mut h = HistogramOpts::from(o);
-    // HistogramOpts::from selects DEFAULT_BUCKETS; the scenario's list (possibly empty) replaces it
-    h = h.buckets(buckets);
-    h
+    match (name.len() + buckets.len()) % 3 {
+        0 => {
+            let mut o = Opts::new(name, help).namespace(ns).subsystem(sub);
+            for (k, v) in consts {
+                o = o.const_label(k, v);
+            }
+            if !vars.is_empty() {
+                o = o.variable_labels(vars);
+            }
+            // HistogramOpts::from selects DEFAULT_BUCKETS; the scenario's list (possibly empty) replaces it
+            HistogramOpts::from(o).buckets(buckets)
+        }
+        1 => {
+            let mut m = HashMap::new();
+            for (k, v) in consts {
+                m.insert(k, v);
+            }
+            // buckets first: the later builder calls must keep them
+            let mut h = HistogramOpts::new(name, help).buckets(buckets).namespace(ns).subsystem(sub).const_labels(m);
+            if !vars.is_empty() {
+                h = h.variable_labels(vars);
+            }
+            h
+        }
+        _ => {
+            let mut h = HistogramOpts::new(name, help);
+            for (k, v) in consts {
+                h = h.const_label(k, v);
+            }
+            h = h.subsystem(sub).buckets(buckets).namespace(ns);
+            for v in vars {
+                h = h.variable_label(v);
+            }
+            h
+        }
+    }
 }
 
 pub fn label_map(kvs: &[(String, String)]) -> HashMap<&str, &str> {
